@@ -66,6 +66,11 @@ CLAIMS = {
         text="Machine-checked for every generated instruction-emitting method (minus recorded findings): opcode has a grammar entry; result type/id exactly when the entry has one; operand slots equal the entry's operands kind by kind, quantifier by quantifier, in grammar order and fed by the parameters in signature order (a swap of two equal-kinded arguments fails); parameters of parameterised kinds only via a single trailing additional_params; the sink (section / block / block end) is where the loader files that opcode; the Builder ends a block for exactly the terminator opcodes. End-to-end equality of a built module with its assemble-then-load image is C06_partial: decided by the differential (every method once in a minimal complete history + seeded complete histories) on top of C05/C12/C13/C15.",
         note="Trusted: Lean kernel + standard axioms; translator builder.py (every token of 1128 methods, validated by calling each method in the harness and comparing with the model's prediction); hand models; ArgsConform/complete-history hypotheses as stated in the evidence; known findings: type_struct_continued_intel(_id), begin_block_no_label.",
         ref="DESIGN.md §8 C06"),
+    "C07": dict(
+        technique="Lean 4 theorems over a two-layer model of binary/disassemble.rs (instructions -> lines of tokens -> characters) instantiated at name tables translated from the source on every run; differential on every enumerant/bit/opcode/instruction shape and on seeded modules; read-back oracle reading the implementation's text with the vocabulary only",
+        text="Machine-checked for every module value: the text is the header comment followed by exactly one line per instruction of all_inst_iter in that order (the order assemble uses, C15); each line has `%id = ` iff a result id, the grammar name of the opcode, the result type iff present, one token per operand. Over the regenerated tables (kernel-checked table facts + generic lemmas): distinct known opcodes, distinct declared enumerants, distinct valid mask values (every mask bit has a printed name), distinct extended-instruction numbers print differently; signed/unsigned/float literal tokens determine the bits. The lexical layer (escaping, float Display) and grammar-directed reading of the tokens are decided by the read-back oracle, not by a theorem (C07_partial at that layer).",
+        note="Trusted: Lean kernel + standard axioms; translator disas_operand.py; hand model Disasm.lean tied by the differential (floats compared by parsing the implementation's token back to bits); tools/disread.py. Quantifier: modules in layout order whose literal widths agree with their declared types; NaN payloads excepted.",
+        ref="DESIGN.md §8 C07"),
     "C17": dict(
         technique="Lean 4 theorems over two independently generated copies of the per-value parameter tables (parser: per enumerant/bit; reflection: grouped), translated on every run: sequence equality for every enumerant, permutation for EVERY bit pattern (generic lemma + kernel-checked table facts), pinned-snapshot equality, id kinds, single-word rewrite; differential reflect/idmut channels",
         text="Machine-checked: for every enumerant of ExecutionMode and Decoration the reflected extra operands expand to exactly the parser's element sequence; for every natural number as bit pattern of the four parameterised masks the reflected operands are a permutation of what the parser consumes; parameters, required capabilities (by value) and extensions equal the pinned snapshot; id_ref_any(_mut) answers exactly for the three spirv::Word variants; replacing a one-word operand changes exactly the corresponding assembled word; every From<T> builds the variant with payload T that the matching unwrap returns.",
